@@ -1,0 +1,10 @@
+// SPDX-FileCopyrightText: The go-mail Authors
+//
+// SPDX-License-Identifier: MIT
+
+//go:build !verif
+
+package smtp
+
+// verifHook is a no-op unless the library is built with the build tag verif.
+func verifHook(string, string) {}
